@@ -198,7 +198,9 @@ def _run(chk, tier, bins, gdir):
     worst = {"dev_p": 0.0, "dev_tp": 0.0, "dev_v": 0.0, "dev_fn": 0.0, "vdev": 0.0, "rdev": 0.0, "xc_dev": 0.0, "xf_dev": 0.0, "dev_xs": 0.0}
     for fam in ("simplex", "hypercube"):
         cs = [c for c in cases if c["fam"] == fam]
-        res = vlib.run_cases(binary_for(fam, bins), cs, tmo=120, shards=8)
+        # the runner cuts the list into contiguous shards: interleave, so that the expensive cases (3D factories, files) are spread over all of them
+        cs = [c for r in range(8) for c in cs[r::8]]
+        res = vlib.run_cases(binary_for(fam, bins), cs, tmo=300, shards=8)
         for c, r in zip(cs, res):
             if r.get("ok") is True and r.get("skip"):
                 chk.extra.setdefault("skipped", []).append("%s %s: %s" % (c["id"], c["srcname"], r.get("why")))
